@@ -24,6 +24,8 @@ def parse_cases(text):
         elif line.startswith("STEP "):
             op, res, obs = line[5:].split(" @@ ")
             cur["steps"].append((op, int(res), obs))
+        elif line.startswith("ATTEMPT "):
+            cur["attempt"] = line[len("ATTEMPT "):]   # the local action handed to the kernel last (printed before delivery)
         elif line.startswith("CSTEP "):
             cur.setdefault("cobs", []).append(line.split(" @@ ", 1)[1])
         elif line.startswith("HUNG "):
@@ -60,7 +62,8 @@ def case_defs(c):
         if obs not in names:
             names[obs] = "ob%d_%d" % (c["idx"], len(names))
             out.append("Definition %s : tr := %s." % (names[obs], obs))
-        if op.startswith(("(MEnter", "MSMRead", "MGRead")):
+        if op.startswith(("(MEnter", "MSMRead", "MGRead", "(MAct")):
+            # consumer operations of Model/MirrorMgr.v (entrances with or without a key, reads, local actions)
             mop = op
         else:
             mop = "(MK %s)" % (op if op.startswith(("(XCrash", "XRestart", "(XOp")) else "(XOp %s)" % op)
@@ -97,6 +100,8 @@ def run_harness(c, binary, seed, ncases, nops, extra=(), batch=5, workers=6, bas
                 sub = lambda t: pat.sub(lambda m: ren.get(m.group(0), m.group(0)), t)
                 c_["bdefs"] = [(ren[n], b_) for n, b_ in c_["bdefs"]]
                 c_["steps"] = [(sub(op), res, sub(obs)) for op, res, obs in c_["steps"]]
+                if c_.get("attempt"):
+                    c_["attempt"] = sub(c_["attempt"])
                 if "cobs" in c_:
                     c_["cobs"] = [sub(o) for o in c_["cobs"]]
                 c_["init"] = (c_["init"][0], sub(c_["init"][1])) if c_["init"] else None
@@ -109,7 +114,7 @@ def run_harness(c, binary, seed, ncases, nops, extra=(), batch=5, workers=6, bas
 
 def redos_of(case):
     """Gallina list of the kernel-step indices of crashed operations that are immediately offered again."""
-    ks = [op for op, _, _ in case["steps"] if not op.startswith(("(MEnter", "MSMRead", "MGRead"))]
+    ks = [op for op, _, _ in case["steps"] if not op.startswith(("(MEnter", "MSMRead", "MGRead", "(MAct"))]
     idx = []
     for i in range(len(ks) - 1):
         m = re.match(r"\(XCrash \d+ (.*)\)$", ks[i], flags=re.S)
@@ -297,9 +302,18 @@ def mirror_check(c, prop_file, monitors, what, quick=(40, 30), thorough=(600, 40
         # the real mirror died (kernel panic) or the harness gave up: that batch's histories are incomplete, so the
         # correspondence is not established for them; C09's kernel part reports the panic itself with its history
         m = re.search(r"panic: (.*)", cr["stderr"])
+        died = [k for k in cases if k["idx"] == cr["case"]]
+        hist = {}
+        if died and died[0].get("panic"):
+            # the history up to the death, and the local action that was being delivered if there was one
+            hist = {"steps_before_the_death": [{"op": op[:600], "impl_result": res} for op, res, _ in died[0]["steps"][-8:]],
+                    "bdefs": dict(died[0]["bdefs"][:200])}
+            if died[0].get("attempt") and (not died[0]["steps"] or died[0]["steps"][-1][0] != died[0]["attempt"]):
+                hist["local_action_being_delivered"] = died[0]["attempt"]
+        rp = {"batch_seed": cr["batch_seed"], "how": "bin/h_mirror -seed %d -cases 5 -ops %d %s" % (cr["batch_seed"], nops, " ".join(["-replay"] + list(extra)))}
+        rp.update(hist)
         c.fail_obligation("harness-run: the real mirror died during a generated history",
-                          (m.group(1) if m else "exit %s" % cr["rc"])[:300] + "\n" + cr["stderr"][-1200:],
-                          {"batch_seed": cr["batch_seed"], "how": "bin/h_mirror -seed %d -cases 5 -ops %d %s" % (cr["batch_seed"], nops, " ".join(["-replay"] + list(extra)))})
+                          (m.group(1) if m else "exit %s" % cr["rc"])[:300] + "\n" + cr["stderr"][-1200:], rp)
     for k in cases:
         if k.get("restart_failed"):
             c.report("restart-failed", "the real mirror did not come up again after a crash: %s" % k["restart_failed"].split(" @@ ")[-1][:200],
@@ -344,7 +358,7 @@ def mirror_check(c, prop_file, monitors, what, quick=(40, 30), thorough=(600, 40
                  {"batch_seed": k["batch_seed"], "batch_case": k["batch_idx"], "ops": len(k["steps"]), "failing_step": step, "monitor": m,
                   "monitor_value": val, "steps": [{"op": op, "impl_result": res} for op, res, _ in k["steps"][:upto]],
                   "impl_observation_at_failure": k["steps"][upto - 1][2] if k["steps"] else None,
-                  "how": "bin/h_mirror -seed %d -cases %d -ops %d (case %d)" % (k["batch_seed"], k["batch_idx"] + 1, len(k["steps"]), k["batch_idx"])})
+                  "how": "bin/h_mirror -seed %d -cases %d -ops %d %s (case %d)" % (k["batch_seed"], k["batch_idx"] + 1, nops, " ".join(["-replay"] + list(extra)), k["batch_idx"])})
     concrete = any(v[3] for v in c.violations)  # a violation with a failing input (known findings excluded)
     if corr_bad and not concrete:
         k, corr = corr_bad[0]
